@@ -616,9 +616,9 @@ func c13Case(o *Out, seedRng *Rng, mi int) {
 		}
 	}
 	o.Emit(Case{
-		Term: N("c13", A(m.name), set.rulesTerm()),
-		Obs:  N("obs", B(accepted), B(named)),
-		Meta: map[string]interface{}{"mutation": m.name, "offender": offender, "error": es, "sdl": set.sdl(false)},
+		Term:       N("c13", A(m.name), set.rulesTerm()),
+		Obs:        N("obs", B(accepted), B(named)),
+		Meta:       map[string]interface{}{"mutation": m.name, "offender": offender, "error": es, "sdl": set.sdl(false)},
 		Nontrivial: true,
 	})
 }
@@ -637,6 +637,64 @@ func init() {
 				c13Case(o, NewRng(seed), mi)
 			}
 		}
+		c13History(o)
 		_ = fmt.Sprint
+	}
+}
+
+// ---- rules that a later load breaks for a type of an earlier load --------------------------------------
+//
+// C13 speaks of every schema a root accepts, however it came to be: a load (or an AddTypes call) that leaves the
+// root with a type breaking a rule must be refused also when the offending type was defined by an earlier load and
+// only what it depends on changed now.  Fixed table, every run; the expected observation is the property.
+
+var c13Histories = []struct {
+	name    string
+	first   string
+	second  string // loaded after first; "api:" entries are done through the Go API
+	refused bool
+	names   string // what the error must name
+}{
+	{"extend-interface-implementer-of-earlier-load", "interface Node { id: ID }\ntype User implements Node { id: ID name: String }\ntype Query { u: User }",
+		"extend interface Node { created: String }", true, "created"},
+	{"extend-interface-with-implementers-in-step", "interface Node { id: ID }\ntype User implements Node { id: ID name: String }\ntype Query { u: User }",
+		"extend interface Node { created: String }\nextend type User { created: String }", false, ""},
+	{"extend-interface-two-implementers-one-behind", "interface Node { id: ID }\ntype User implements Node { id: ID }\ntype Org implements Node { id: ID }\ntype Query { u: User o: Org }",
+		"extend interface Node { created: String }\nextend type User { created: String }", true, "Org"},
+	{"extend-interface-argument-added", "interface Node { id(x: Int): ID }\ntype User implements Node { id(x: Int): ID }\ntype Query { u: User }",
+		"extend interface Node { at(y: Int): ID }", true, "at"},
+	{"new-implementer-of-earlier-interface", "interface Node { id: ID }\ntype Query { n: Node }",
+		"type Org implements Node { name: String }", true, "id"},
+	{"new-union-member-not-object", "interface Node { id: ID }\ntype A { x: Int }\nunion U = A\ntype Query { u: U }",
+		"extend union U = Node", true, "Node"},
+	{"unrelated-type-after-valid-load", "interface Node { id: ID }\ntype User implements Node { id: ID }\ntype Query { u: User }",
+		"type Extra { x: Int }", false, ""},
+}
+
+func c13History(o *Out) {
+	for _, h := range c13Histories {
+		root := newLoadRoot()
+		if err := safeParse(root, h.first); err != nil {
+			panic("c13 history first load: " + err.Error())
+		}
+		before := root.SDL(false, true)
+		err := safeParse(root, h.second)
+		refused := err != nil
+		named := true
+		if refused && h.names != "" {
+			named = strings.Contains(err.Error(), h.names)
+		}
+		unchanged := !refused || root.SDL(false, true) == before
+		es := ""
+		if err != nil {
+			es = err.Error()
+		}
+		o.Count("two-load histories")
+		o.Emit(Case{
+			Term:       N("c13h", S(h.name), B(h.refused)),
+			Obs:        N("obs", B(refused), B(named), B(unchanged)),
+			Meta:       map[string]interface{}{"first": h.first, "second": h.second, "error": es},
+			Nontrivial: true,
+		})
 	}
 }
